@@ -242,6 +242,40 @@ pub fn run(args: &Args, out: &mut Out) {
             i += 1;
         }
     }
+    // mirror of `Set` (fast / authoritative): contains, is_subset, is_disjoint, == on generated set pairs
+    {
+        use cedar_policy_core::ast::{Set, ValueKind};
+        let mut sr = Rng::new(args.seed ^ 0x5e7);
+        let w = gen::gen_world(&mut sr);
+        let nsets = if args.thorough { 20000 } else { 1500 };
+        let gen_elem = |r: &mut Rng, w: &World, g: &mut ExprGen| -> Option<Value> {
+            let ty = *r.pick(&[Ty::Long, Ty::Long, Ty::Str, Ty::Entity, Ty::Bool, Ty::SetLong, Ty::Record, Ty::Decimal, Ty::Ip]);
+            let e = g.leaf(r, ty);
+            eval(w, &e).ok().and_then(|x| x.ok())
+        };
+        for _ in 0..nsets {
+            let mut mk = |r: &mut Rng, g: &mut ExprGen| -> Vec<Value> {
+                let n = r.below(5);
+                let lits_only = r.chance(50);
+                let mut v = Vec::new();
+                for _ in 0..n {
+                    let x = if lits_only { Value::from(r.range(0, 4)) } else { match gen_elem(r, &w, g) { Some(x) => x, None => Value::from(1) } };
+                    v.push(x);
+                }
+                v
+            };
+            let xs = mk(&mut sr, &mut g);
+            let ys = if sr.chance(30) { let mut y = xs.clone(); if sr.chance(50) { y.reverse(); } if sr.chance(50) && !y.is_empty() { y.pop(); } y } else { mk(&mut sr, &mut g) };
+            let v = if sr.chance(50) && !xs.is_empty() { xs[sr.below(xs.len())].clone() } else { gen_elem(&mut sr, &w, &mut g).unwrap_or(Value::from(0)) };
+            let s1 = Set::new(xs.clone());
+            let s2: Set = ys.iter().cloned().collect(); // FromIterator path
+            let vs1 = Value::new(ValueKind::Set(s1.clone()), None);
+            let vs2 = Value::new(ValueKind::Set(s2.clone()), None);
+            let obs = format!("(setop {} {} {} {} {} {})", s1.contains(&v), s1.is_subset(&s2), s1.is_disjoint(&s2), s1 == s2, s1.fast.is_some(), s1.len());
+            out.line(format!("(setop {} {} {})", sx::value(&vs1), sx::value(&vs2), sx::value(&v)), obs, "setop".into());
+            out.count("setop");
+        }
+    }
     for (k, v) in g.op_hist.iter() {
         out.add(&format!("op_{k}"), *v);
     }
